@@ -260,6 +260,7 @@ def units(ctx):
 
 
 SPEC = Spec(
+    lean=['IntervalMeasure.lean', 'Folds.lean'],
     prop=PROP, level="proof",
     functions=[(UT, "merge_kernel_intervals"), (BA, "BreakdownAnalysis._get_idle_time_for_kernels"), (BA, "BreakdownAnalysis.get_temporal_breakdown.idle_time_per_rank"),
                (BA, "BreakdownAnalysis.get_temporal_breakdown")],
